@@ -10,6 +10,8 @@ OL_INTERRUPT: _ol_reserved_name = "__ol_interrupt_{}"
 OL_WRAPPED_ITER: _ol_reserved_name = "__ol_it_{}"
 OL_FOR_ITEM: _ol_reserved_name = "__ol_item_{}"
 OL_WHILE_DUMMY: _ol_reserved_name = "__ol_while_{}"
+OL_WHILE_TEST: _ol_reserved_name = "__ol_test_{}"
+OL_FOR_ITER: _ol_reserved_name = "__ol_iter_{}"
 OL_ITER_WRAPPER: _ol_reserved_name = "__ol_iter_wrapper"  # don't need format here
 OL_ITERTOOLS: _ol_reserved_name = "__ol_itertools"  # don't need format here
 OL_IMPORTLIB: _ol_reserved_name = "__ol_importlib"  # don't need format here
